@@ -43,6 +43,10 @@ ArcOfInner(k, n, e) == Inner(k, n, e)[1] /\ Inner(k, n, e)[2]   \* Arc<T>: Send 
 ExplicitSend(k, n, e) == k = "both" /\ n = "both" /\ e = "both"
 ExplicitSync(k, n, e) == k = "both" /\ n = "both" /\ e = "both"
 
+\* carriers: values the public API hands out besides nodes, edges and graphs
+ClosureCarriers == {"Bfs", "Dfs", "Pfs", "Order"}      \* hold the user's type-erased callback
+AccessCarriers  == {"Path", "IterOut", "IterIn", "Iter"} \* give access to node / edge values
+
 \* Derived(fl, ty, k, n, e) = <<Send, Sync>>
 Derived(fl, ty, k, n, e) ==
   IF fl \in {"digraph", "ungraph"} THEN <<FALSE, FALSE>>       \* Rc / RefCell based
@@ -51,15 +55,28 @@ Derived(fl, ty, k, n, e) ==
        IN  CASE ty = "Node"  -> <<nodeS, nodeY>>
              [] ty = "Edge"  -> <<nodeS /\ IsSend(e), nodeY /\ IsSync(e)>>
              [] ty = "Graph" -> <<nodeS /\ IsSend(k), nodeY /\ IsSync(k)>>
+             \* search builders hold `&mut dyn FnMut(&Edge)`: a trait object without `+ Send` / `+ Sync`
+             [] ty \in ClosureCarriers -> <<FALSE, FALSE>>
+             \* iterators hold `&Node` and a position: &T is Send iff T: Sync, Sync iff T: Sync
+             [] ty \in {"IterOut", "IterIn", "Iter"} -> <<nodeY, nodeY>>
+             [] ty = "Path"  -> <<nodeS /\ IsSend(e), nodeY /\ IsSync(e)>>     \* Option<Vec<Edge>>
 
 \* ---- property layer (C16) ----
 Allowed(fl, ty, k, n, e, s, y) ==
   IF fl \in {"digraph", "ungraph"} THEN ~s /\ ~y
+  \* "consequently no safe program can reach a node value or edge value from two threads
+  \* without the synchronisation that value's own type provides":
+  \*  - a builder carries a callback whose captures are erased from its type; nothing written on
+  \*    K, N, E can justify sending or sharing it (the callback may own an Rc, a plain node, a
+  \*    sync node with a Cell value ...)
+  ELSE IF ty \in ClosureCarriers THEN ~s /\ ~y
+  \*  - an iterator / path reaches node and edge values: only if, as for the node itself
+  ELSE IF ty \in AccessCarriers THEN (s \/ y) => AllBoth(k, n, e)
   ELSE /\ (s \/ y) => AllBoth(k, n, e)         \* only if
        /\ AllBoth(k, n, e) => (s /\ y)         \* always can be when they are
 
 Flavours == {"digraph", "sync_digraph", "ungraph", "sync_ungraph"}
-Types == {"Node", "Edge", "Graph"}
+Types == {"Node", "Edge", "Graph"} \cup ClosureCarriers \cup AccessCarriers
 \* the algorithm layer satisfies the property for every assignment (checked by TLC as an ASSUME-like invariant)
 DerivedSatisfiesC16 ==
   \A fl \in Flavours, ty \in Types, k \in Caps, n \in Caps, e \in Caps :
@@ -82,6 +99,7 @@ Reasons(ev) ==
   LET d == Derived(ev.fl, ev.ty, ev.k, ev.n, ev.e) IN
      When(~Allowed(ev.fl, ev.ty, ev.k, ev.n, ev.e, ev.send, ev.sync),
           IF ev.fl \in {"digraph", "ungraph"} THEN "plain-type-is-send-or-sync"
+          ELSE IF ev.ty \in ClosureCarriers THEN "search-builder-with-type-erased-callback-is-send-or-sync"
           ELSE IF (ev.send \/ ev.sync) /\ ~AllBoth(ev.k, ev.n, ev.e) THEN "sendable-or-shareable-with-unsafe-payload"
           ELSE "not-send-sync-although-payloads-are")
   \o When(Allowed(ev.fl, ev.ty, ev.k, ev.n, ev.e, ev.send, ev.sync) /\ <<ev.send, ev.sync>> # d, "drift:differs-from-derivation")
